@@ -227,6 +227,21 @@ def run(res, ctx):
                 if status in ("panic", "timeout"):
                     res.violation("failing-input", "acb -b %r %s: %s %s" % (spec, " ".join(extra), status, info[:300]),
                                   {"args": ["-b", spec] + extra, "input": simple.decode(), "actual_impl": info})
+        # fixed corpus: summary modes on a gain traded in December and settled in January (the yearly bookkeeping of
+        # --summarize-annual-gains is keyed by settlement year), for several dates and both affiliates' kinds
+        yb = (b"security,trade date,settlement date,action,shares,amount/share,affiliate\n"
+              b"FOO,2019-03-03,2019-03-05,Buy,100,10,\nFOO,2019-03-03,2019-03-05,Buy,50,10,Spouse\n"
+              b"FOO,2019-10-01,2019-10-03,Sell,10,15,\nFOO,2019-12-30,2020-01-02,Sell,10,18,\n"
+              b"FOO,2019-12-31,2020-01-03,Sell,5,8,Spouse\nFOO,2020-09-01,2020-09-03,Sell,10,20,\n")
+        for cut in ("2019-12-31", "2020-01-01", "2020-01-02", "2020-01-03", "2020-06-30", "2021-01-01"):
+            for extra in ([], ["--summarize-annual-gains"]):
+                args_ = ["--summarize-before", cut] + extra
+                status, info, argv = run_cli(bindir, "acb", args_, [("in.csv", yb)], 0)
+                st["evaluations"] += 1
+                st["cli-corpus-" + status] += 1
+                if status in ("panic", "timeout"):
+                    res.violation("failing-input", "acb %s: %s %s" % (" ".join(args_), status, info[:300]),
+                                  {"args": args_, "input": yb.decode(), "actual_impl": info})
         nb = 150 if tier == "quick" else 3000
         for k in range(nb):
             c = gen.gen_case(rng, p_invalid=0.1)
